@@ -356,6 +356,9 @@ func (w *vfC09World) start(sta *State) {
 	}()
 }
 
+// C07 only classifies (reply / relay / close / drop): a session is settled with its first server byte
+var vfC09QuickSession = false
+
 // must hold w.mu: a reader is parked in Read and there is nothing it could be handed
 func (c *vfC09Peer) blocked() bool {
 	return c.idle && len(c.chunks) == 0 && !c.eof && !c.hung && c.rdl.IsZero() && !c.closed
@@ -374,7 +377,7 @@ func (w *vfC09World) settled() bool {
 	if w.dials == 0 {
 		if len(p.got) > 0 {
 			// the server answered itself (session): settled when it is back waiting for the peer
-			return p.blocked() || p.closed
+			return vfC09QuickSession || p.blocked() || p.closed
 		}
 		return w.returned || p.closed
 	}
@@ -418,7 +421,7 @@ func (w *vfC09World) waitSettled(grace, max time.Duration) (unsettled bool) {
 		if w.settled() {
 			// sessions (server-originated writes) are confirmed by 3 ms without any event: the WebSocket
 			// path writes the HTTP 101 and the reply frame separately
-			if w.dials == 0 && len(w.peer.got) > 0 && w.panicked == "" {
+			if w.dials == 0 && len(w.peer.got) > 0 && w.panicked == "" && !vfC09QuickSession {
 				if lastEvents != w.eventCount {
 					lastEvents = w.eventCount
 					stableSince = time.Now()
